@@ -178,18 +178,9 @@ fn check_det(den: Option<&Den>, p: &Program, family: &str, index: usize, d: usiz
     if let Some(e) = &ex.error {
         viols.push(mk("machinery", family, index, sig.clone(), e.clone(), String::new(), vec![]));
     }
-    let mut syntactic_only = false;
+    let syntactic_only = false;
     let mut compare = |label: String, schedule: Vec<usize>, other: &(Vec<String>, Vec<Vec<u64>>, String)| {
         if other.0 == base.0 && other.2 == base.2 {
-            return;
-        }
-        if other.2 == base.2 && den.is_some() && other.1 == base.1 {
-            // same outcome, same number of constraints per answer and the same instance sets
-            // position by position: a purely syntactic difference (which of two equivalent
-            // constraints was kept) — recorded, not raised. A different NUMBER of constraints
-            // (a redundant one left behind in some orders) is raised: the statement fixes the
-            // constraint sets up to the order of their elements.
-            syntactic_only = true;
             return;
         }
         viols.push(mk(
